@@ -48,7 +48,7 @@ CLAIMED = {
  "C08": ("Coq proof (field/lra over Q): Cohen-Sutherland invariant, termination measure, exact result; Fractions correspondence; floats judged by a sandwich checker",
          "Theorems C08_result, C08_accept_iff, C08_no_div0, C08_measure: for all rational segments and rectangles (min<=max) the model of clip_segment accepts iff some point of the segment is inside, "
          "returns seg(t1), seg(t2) with 0<=t1<=t2<=1 covering every inside parameter, never divides by zero, never reaches the failsafe (each clip lowers the number of violated sides). "
-         "The code runs unchanged on Fractions and is compared exactly; float runs are judged in exact arithmetic with eps = 1e-9 x scale.",
+         "The code runs unchanged on Fractions and is compared exactly; float runs are judged in exact arithmetic with eps = 1e-9 x scale. clip_code is re-translated from the source on every run (py2v) and proved equal to the model's region flags.",
          NOTE_COMMON + "Float rounding staying inside the tolerance is sampled, not proved; the sandwich checker is an executable specification.", "DESIGN.md section 5, C08"),
  "C09": ("Coq proof: predicate = true point-segment distance (nra over Q), reduction relation by induction on the nested loops; Fractions correspondence with object identity",
          "Theorems C09_predicate_is_distance, C09_points_in_tolerance, C09_reduction, C09_subsequence, C09_unchanged: the fast predicate accepts a point iff some point of the chord is strictly "
@@ -76,7 +76,7 @@ CLAIMED = {
          "Theorems C13_nearest (construction files every end in range in the cell of its coordinates; removals of distinct existing paths never raise and take out exactly that path's ends; "
          "a query returns None exactly when no end is alive, otherwise the id of a live end at least as close as every live end in the query's cell and its eight neighbours, and as every live end "
          "when those hold none), C13_none_iff, C13_one_cell_width (an end within one cell width of the query is in a neighbouring cell, so the result is at least as close as it), C13_adjacent, "
-         "C13_build. The model is replayed on histories of queries and removals on Fractions, and every answer is judged by brute force over the live ends.",
+         "C13_build. square_dist is re-translated from the source on every run (py2v) and proved equal to the model's sqdist. The model is replayed on histories of queries and removals on Fractions, and every answer is judged by brute force over the live ends.",
          NOTE_COMMON + "Exact rational arithmetic; floats are judged, not modelled. Removing a path twice (ValueError in the code) is outside the theorem's hypotheses.", "DESIGN.md section 5, C13"),
  "C14": ("Coq proof: query = brute force for all box lists (induction on fuel = size) + exact-rational correspondence",
          "Theorem C14_query_eq_brute: for every list of valid boxes and every query the model of Index(...).intersection returns exactly the ids whose box overlaps the query; "
@@ -98,10 +98,11 @@ CLAIMED = {
          "at least both end rates, and every tick's absolute rate is within |jerk| of it. Correspondence with ebb_calc.max_rate_t3 on vertex-boundary families.",
          NOTE_COMMON + "The float quotient t_mid classifying like the rational one is sampled, not proved; the O(1) peak used to judge outputs is proved to be the true peak (C17_oracle_is_peak).",
          "DESIGN.md section 5, C17"),
- "C18": ("Coq proof (lra over Q) on a hand model + exact-rational correspondence with /repo",
+ "C18": ("Coq proof (lra over Q) on a hand model; the four helpers re-translated from the source on every run (py2v) and proved equal to the model; exact-rational correspondence with /repo",
          "Theorems for all rationals: each helper returns the clamp of the value (value inside, nearer bound outside), flags exactly the outliers "
          "(by more than the tolerance for the tolerant one), and the 2-D test equals the tolerant checker per coordinate. The hand model is tied to "
-         "plot_utils.py on every run by executing both on the same exact rational inputs (the code is duck-typed and runs on Fractions).",
+         "plot_utils.py on every run twice: tools/py2v.py regenerates Gallina definitions from the current source and the equivalence lemmas of tools/py2v_eq/C18.v are re-checked by the kernel, "
+         "and both are executed on the same exact rational inputs (the code is duck-typed and runs on Fractions).",
          NOTE_COMMON + "Float rounding inside comparisons is outside the model (floats are converted exactly).",
          "DESIGN.md section 5, C18"),
  "C19": ("Coq proof: first/list/lookup characterisations, own-name lookup via substring lemmas, case insensitivity, layer agreement; correspondence on a descriptor grammar",
